@@ -391,6 +391,7 @@ sink_thread_proc(void)
       break;
 
     block = shift(output_q);
+    VERIF_YIELD(VS_SINK_LOCKED, 0);
     xunlock(&sink_mutex);
 
     Trace(("      sink: writing data (%u bytes)", (unsigned)block.size));
